@@ -20,6 +20,7 @@ Line == TraceLog[l]
 tvars == <<vars, l>>
 
 RPend(r) == CASE rpc[r] \in {"dload_own", "dload_null", "dload_p_own", "dload_p_null"} -> "dload"
+              [] rpc[r] \in {"massign_own", "massign_null"} -> "massign"
               [] OTHER -> rpc[r]
 
 (* the same projection the replayer computes from the real objects *)
@@ -44,6 +45,8 @@ TStep ==
     /\ Line.a \notin {"Reset", "Deadlock"}
     /\ LET t == Line.t IN
          CASE Line.a = "Claim" -> Claim(t)
+           [] Line.a = "MClaimOwn" -> MClaimOwn(t)
+           [] Line.a = "MAssign" -> MAssign(t)
            [] Line.a = "DtorStart" -> DtorStart(t)
            [] Line.a = "DLoad" -> DLoad(t)
            [] Line.a = "SwapReady" -> SwapReady(t)
@@ -69,7 +72,8 @@ TReset ==
     /\ tag' = IF RFinal # {} THEN "val" ELSE "none"
     /\ payload' = IF RFinal # {} THEN CHOOSE r \in RFinal : TRUE ELSE "none"
     /\ writes' = IF RFinal # {} THEN 1 ELSE 0
-    /\ rpc' = [r \in Resolvers |-> IF r \in RFinal THEN "swap" ELSE IF r \in RDtor THEN "dtor" ELSE "claim"]
+    /\ rpc' = [r \in Resolvers |-> IF r \in RFinal THEN "swap" ELSE IF r \in RDtor THEN "dtor"
+                                  ELSE IF r \in RMasg THEN "mclaim_own" ELSE "claim"]
     /\ rres' = [r \in Resolvers |-> "none"]
     /\ cur' = [r \in Resolvers |-> "null"]
     /\ rest' = [r \in Resolvers |-> "null"]
